@@ -84,6 +84,11 @@ def run(repo: Repo, chk: Check):
     chk.rule("R01.q", "a conditional expression whose arms are both evaluated before the select must not run user code in an arm: the lowering is "
                       "used only for arms without calls, or the arms are compiled into branches", floor=1)
     chk.guarded(r01q, repo, chk)
+    chk.rule("R01.r", "a value that is read or written inside a loop keeps its register until the loop is left: the line interval of its accesses is widened to "
+                      "the enclosing loops before the register allocator compares lifetimes, otherwise a later iteration reads a register that another value "
+                      "took in between (shared with R04.d)", floor=4)
+    from .c04 import rule_loop_widening
+    chk.shared({"R04.d": "R01.r"}, rule_loop_widening, repo, chk)
     from .c03 import fold_table_rows
     chk.guarded(fold_table_rows, repo, chk, "R01.j", "R01.j")
 
@@ -989,7 +994,8 @@ def r01p(repo, chk, R="R01.p"):
     generic = set()
     for i in ast.walk(hn):
         if isinstance(i, ast.If) and isinstance(i.test, ast.Call) and norm(i.test.func) == "hasattr" and len(i.test.args) == 2 and isinstance(i.test.args[1], ast.Constant):
-            generic |= _excluded_fields(i.body)
+            # 'if hasattr(node, F): special_nodes.append(node.F)': the field F of every type that has one
+            generic |= _excluded_fields(i.body) & {i.test.args[1].value}
     n = 0
     for i in ast.walk(gc):
         if isinstance(i, ast.If) and not any(x is i for lp in loops for x in ast.walk(lp)):
